@@ -13,6 +13,7 @@ import (
 
 	"google.golang.org/protobuf/encoding/protowire"
 	"google.golang.org/protobuf/reflect/protoreflect"
+	"google.golang.org/protobuf/types/dynamicpb"
 )
 
 type modelSchema struct {
@@ -43,6 +44,49 @@ func visitOrder(md protoreflect.MessageDescriptor) []protoreflect.FieldDescripto
 			out = append(out, o.Fields().Get(j))
 		}
 	}
+	// … then the proto2 extensions of md that the generated code knows (`range getExtensions .`)
+	out = append(out, knownExtensions(md)...)
+	return out
+}
+
+var knownExtCache = map[protoreflect.FullName][]protoreflect.FieldDescriptor{}
+
+// knownExtensions: the proto2 extensions of md that the code generated for md handles — those declared in md's own
+// .proto file — in the order of the generator's getExtensions(): the file-level declarations first, then the
+// declarations inside the messages of the file, breadth first. The descriptors are extension TYPE descriptors
+// (dynamicpb), so that Has/Get of a dynamic message accept them.
+func knownExtensions(md protoreflect.MessageDescriptor) []protoreflect.FieldDescriptor {
+	if md.ExtensionRanges().Len() == 0 {
+		return nil
+	}
+	if xs, ok := knownExtCache[md.FullName()]; ok {
+		return xs
+	}
+	var out []protoreflect.FieldDescriptor
+	add := func(xs protoreflect.ExtensionDescriptors) {
+		for i := 0; i < xs.Len(); i++ {
+			if xs.Get(i).ContainingMessage().FullName() == md.FullName() {
+				out = append(out, dynamicpb.NewExtensionType(xs.Get(i)).TypeDescriptor())
+			}
+		}
+	}
+	f := md.ParentFile()
+	add(f.Extensions())
+	var queue []protoreflect.MessageDescriptor
+	for i := 0; i < f.Messages().Len(); i++ {
+		queue = append(queue, f.Messages().Get(i))
+	}
+	for len(queue) > 0 {
+		m := queue[0]
+		queue = queue[1:]
+		add(m.Extensions())
+		for i := 0; i < m.Messages().Len(); i++ {
+			if mm := m.Messages().Get(i); !mm.IsMapEntry() {
+				queue = append(queue, mm)
+			}
+		}
+	}
+	knownExtCache[md.FullName()] = out
 	return out
 }
 
@@ -93,11 +137,12 @@ func buildModelSchema(root protoreflect.MessageDescriptor) *modelSchema {
 		}
 		ms.index[md.FullName()] = len(ms.mds)
 		ms.mds = append(ms.mds, md)
-		if md.ExtensionRanges().Len() > 0 {
-			ms.ok = false
-		}
 		if strings.HasPrefix(md.ParentFile().Path(), "google/protobuf/") {
 			ms.foreign = true
+			if md.ExtensionRanges().Len() > 0 {
+				// descriptor.proto's option messages: marshaled by their runtime, in an order of its own
+				ms.ok = false
+			}
 		}
 		for _, fd := range visitOrder(md) {
 			if fd.Kind() == protoreflect.GroupKind {
@@ -120,6 +165,10 @@ func buildModelSchema(root protoreflect.MessageDescriptor) *modelSchema {
 			}
 			card := "i"
 			switch {
+			case fd.IsExtension() && fd.IsList():
+				card = "l" // a repeated extension is written one record per element, whatever its packed option says
+			case fd.IsExtension():
+				card = "x" // a singular extension: presence and value live in the runtime's extension store
 			case md.IsMapEntry():
 				card = "a"
 			case fd.IsMap():
@@ -302,8 +351,16 @@ func usesUnmodelled(m protoreflect.Message) bool {
 	bad := false
 	m.Range(func(fd protoreflect.FieldDescriptor, v protoreflect.Value) bool {
 		if fd.IsExtension() {
-			bad = true
-			return false
+			known := false
+			for _, x := range knownExtensions(m.Descriptor()) {
+				if x.Number() == fd.Number() {
+					known = true
+				}
+			}
+			if !known { // declared in another file: the code generated for the extendee cannot know it
+				bad = true
+				return false
+			}
 		}
 		return true
 	})
